@@ -20,7 +20,7 @@ KeySeq == [e \in 1..NE |-> (e - 1) % NK]
 Ents == 1..NE
 Zones == 0..(NZ - 1)
 DepOK(S) == \A z \in Zones : S.dep[z] <= MaxDep
-NewEv == [op |-> "new", mt |-> MT, nz |-> NZ, keys |-> KeySeq]
+NewEv == [op |-> "new", mt |-> IF MT THEN 1 ELSE 0, nz |-> NZ, keys |-> KeySeq, rc |-> 0]
 
 (* ---------------- postconditions of a call e that leads from S (ghost ord) to S2 *)
 InZoneNewestFirst(S, ord, z) == SelectSeq(ord, LAMBDA x : S.ez[x] = z)
@@ -123,7 +123,7 @@ DoEnum(t, rm, stop) ==
           SelectSeq(order, LAMBDA x : ~(x \in rm /\ x \in RangeOf(r.vis))))
 DoDestroy(t) ==
   /\ hb.alive /\ \A z \in Zones : hb.own[z] = None
-  /\ LET r == Destroy(hb) IN Step([op |-> "destroy", t |-> t, vis |-> r.vis], r.S, << >>)
+  /\ LET r == Destroy(hb) IN Step([op |-> "destroy", t |-> t, znull |-> 1, vis |-> r.vis], r.S, << >>)
 DoNew == ~hb.alive /\ Step(NewEv, New(MT, NZ, KeySeq), << >>)
 
 Next ==
